@@ -160,3 +160,29 @@ package sorted_set
 //@     invariant forall v Value :: !(exists i int :: 0 <= i && i <= rangeindex && members[i].Value == v) ==> (has(set.members, v) <==> old(has(set.members, v))) && set.members[v] == old(set.members[v])
 //@     invariant lower(policy) == "nx" ==> (forall v Value :: old(has(set.members, v)) ==> has(set.members, v) && set.members[v] == old(set.members[v]))
 //@     invariant lower(policy) == "xx" ==> (forall v Value :: has(set.members, v) <==> old(has(set.members, v)))
+
+// ---- ZREMRANGEBYRANK key start stop: both ranks inclusive (negative ranks count from the highest score); the reply is the
+// number of members removed, i.e. the size of the inclusive rank range. (Which members go depends on slices.SortFunc, whose
+// result is abstracted: not decided.)
+//@ spec zkey(params internal.HandlerFuncParams) string = old(params.Command[1])
+//@ spec zarg(params internal.HandlerFuncParams, i int) string = old(params.Command[i])
+//@ spec zlive(params internal.HandlerFuncParams, k string) bool = sugardb.livekey($srv, dbof(params.Context), k, $now)
+//@ spec zval(params internal.HandlerFuncParams, k string) any = $srv.store[dbof(params.Context)][k].Value
+//@ spec iszset(v any) bool = istype(v, "*SortedSet")
+//@ spec aszset(v any) *SortedSet = astype(v, "*SortedSet")
+//@ spec zrank(n int, i int) int = i < 0 ? i + n : i
+//@ spec zabs(n int) int = n < 0 ? 0 - n : n
+
+//@ func handleZREMRANGEBYRANK props C17,C12
+//@   requires generic.henv(params)
+//@   assumes own-cmd: len(params.Command) >= 2 ==> disjointarr(params.Command, $srv.keysWithExpiry.keys[dbof(params.Context)])
+//@   assumes stored-wf: len(params.Command) >= 2 && iszset(zval(params, zkey(params))) ==> aszset(zval(params, zkey(params))) != nil && !fresh(aszset(zval(params, zkey(params)))) && inv(aszset(zval(params, zkey(params))), alloc) && inv(aszset(zval(params, zkey(params))), exists)
+//@   ensures {C17} arity: len(params.Command) != 4 ==> result1 != nil
+//@   ensures {C17} badrank: len(params.Command) == 4 && (!atoiok(zarg(params, 2)) || !atoiok(zarg(params, 3))) ==> result1 != nil
+//@   ensures {C17} absent: len(params.Command) == 4 && atoiok(zarg(params, 2)) && atoiok(zarg(params, 3)) && !old(zlive(params, zkey(params))) ==> result1 == nil && bstr(result0) == ":0\r\n"
+//@   ensures {C17} wrongtype: len(params.Command) == 4 && atoiok(zarg(params, 2)) && atoiok(zarg(params, 3)) && old(zlive(params, zkey(params))) && !old(iszset(zval(params, zkey(params)))) ==> result1 != nil
+//@   ensures {C17} count: result1 == nil && old(zlive(params, zkey(params))) && old(iszset(zval(params, zkey(params)))) ==> bstr(result0) == ":" ++ (itoa(zabs(zrank(old(len(aszset(zval(params, zkey(params))).members)), atoi(zarg(params, 2))) - zrank(old(len(aszset(zval(params, zkey(params))).members)), atoi(zarg(params, 3)))) + 1) ++ "\r\n")
+//@   loop 0
+//@     invariant start <= i && i <= stop + 1 && deletedCount == i - start && stop < len(members) && 0 <= start && inv(set, alloc) && inv(set, exists)
+//@   loop 1
+//@     invariant stop <= i && i <= start + 1 && deletedCount == i - stop && start < len(members) && 0 <= stop && inv(set, alloc) && inv(set, exists)
